@@ -216,16 +216,17 @@ Qed.
 Theorem op_rms_spot_spec (xs ys : list R) :
   is_rms_radius xs ys (mean_ (O := ROps) xs, mean_ (O := ROps) ys) (k_op_rms_spot ROps xs ys).
 Proof.
-  unfold k_op_rms_spot. rops.
+  unfold k_op_rms_spot. cbv zeta. rops.
   change (fun v_ : R => v_ * v_) with (fun v : R => v * v).
   rewrite lmap_sub_sq_dist2.
-  set (c := (mean_ (O := ROps) xs, mean_ (O := ROps) ys)). set (d := dist2 xs ys c).
-  unfold is_rms_radius. fold d. split; [apply sqrt_pos|].
-  rewrite mean_R. unfold Rcount.
-  assert (Hs : 0 <= Rsum d) by (apply Rsum_nonneg; intros v Hv; eapply dist2_nonneg; exact Hv).
-  destruct (length d) as [|n] eqn:E.
-  - destruct d; [cbn [length INR Rsum]; ring|discriminate].
-  - assert (Hn : 0 < INR (S n)) by (apply lt_0_INR; lia).
+  unfold is_rms_radius.
+  match goal with |- context [dist2 xs ys ?c] => remember (dist2 xs ys c) as d eqn:Ed end.
+  split; [apply sqrt_pos|].
+  rewrite (mean_R d). unfold Rcount.
+  assert (Hs : 0 <= Rsum d) by (apply Rsum_nonneg; intros v Hv; rewrite Ed in Hv; eapply dist2_nonneg; exact Hv).
+  clear Ed. destruct d as [|d0 d].
+  - cbn [length INR Rsum]. rewrite Rmult_0_l. reflexivity.
+  - assert (Hn : 0 < INR (length (d0 :: d))) by (apply lt_0_INR; cbn; lia).
     rewrite sqrt_sqrt.
     + field; lra.
     + apply Rmult_le_pos; [exact Hs|]. left; apply Rinv_0_lt_compat; exact Hn.
@@ -237,7 +238,7 @@ Proof. intros; split; cbn [fst snd]; apply first_moment_mean; assumption. Qed.
 
 (** satisfiability of the hypotheses: a three-ray spot *)
 Example spot_example :
-  let s : spotR := mkSpot [1; 2; 3] [0; 0; 3] [1; 1; 1] in
+  let s : spotR := mkSpot (O := ROps) [1; 2; 3] [0; 0; 3] [1; 1; 1] in
   centroid1 0%Z [s] = Some (mean_ (sx s), mean_ (sy s)) /\ radii s <> [] /\
   (forall e, In e (si s) -> 0 <= e).
 Proof.
